@@ -257,4 +257,17 @@ theorem statement_order_tied :
     Gen.ConnSkel.handleEventWithGuard = ConnSkel.Decl.handleEventWithGuard :=
   ConnSkel.skeletons_agree
 
+/-- T1, the functions that deliver the two notifications: `notifyWriteComplete` / `notifyHighWaterMark` lock the
+weak pointer, call the bound callback only if the connection still exists, with the connection (and the bound
+backlog) as arguments, and do nothing else; the default callbacks do what the model assumes (`defaultConnectionCallback`
+leaves the connection alone, `defaultMessageCallback` drops everything that was read) -/
+theorem notification_trampolines_tied :
+    notifyLocks = true ∧
+    Gen.ConnSkel.notifyWriteComplete = ConnSkel.Decl.notifyWriteComplete ∧
+    Gen.ConnSkel.notifyHighWaterMark = ConnSkel.Decl.notifyHighWaterMark ∧
+    Gen.ConnSkel.weakCallbackCall = ConnSkel.Decl.weakCallbackCall ∧
+    Gen.ConnSkel.defaultConnectionCallback = ConnSkel.Decl.defaultConnectionCallback ∧
+    Gen.ConnSkel.defaultMessageCallback = ConnSkel.Decl.defaultMessageCallback :=
+  ⟨rfl, ConnSkel.trampolines_agree⟩
+
 end MuduoVerif.C13
